@@ -1,5 +1,5 @@
 (* Property C17 — load-balancer selection laws.  Model: Lb.v (src/connectors/loadbalance.rs). *)
-From RP Require Import Base Lb LbProofs.
+From RP Require Import Base Lb LbProofs Config LbRecord.
 From Coq Require Import Permutation String.
 From RP.Gen Require Gen_lb.
 
@@ -46,6 +46,20 @@ Theorem C17_source_shape :
   Gen_lb.rr_index_is_ticket_mod_len = true /\ Gen_lb.hash_index_is_hash_mod_len = true.
 Proof. exact (conj eq_refl (conj eq_refl (conj eq_refl (conj eq_refl (conj eq_refl eq_refl))))). Qed.
 Print Assumptions C17_source_shape.
+
+(* the member actually used is the one recorded: for every connector table, every request, every sequence of selections and
+   any depth of nesting, the record that stays on the connection names the connector that opened it.  The order of the two
+   statements in LoadBalanceConnector::connect is read from the source. *)
+Theorem C17_recorded_is_used : forall fuel t n choices leaf,
+  resolve fuel t n choices = Leaf leaf -> recorded Gen_lb.lb_records_member_before_delegating fuel t n choices = leaf.
+Proof. exact recorded_is_used. Qed.
+Print Assumptions C17_recorded_is_used.
+
+Theorem C17_record_after_connect_refuted :
+  let t := [(0, KPlain); (1, KLb [2]); (2, KLb [0])]%N in
+  table_ok t = true /\ resolve 4 t 1%N [] = Leaf 0%N /\ recorded false 4 t 1%N [] = 2%N /\ recorded true 4 t 1%N [] = 0%N.
+Proof. exact record_after_connect_refuted. Qed.
+Print Assumptions C17_record_after_connect_refuted.
 
 Example C17_example : count_pos 3 1 (seq 1000 12) = 4%nat /\ member_at [10; 20; 30] 1001 = Some 30.
 Proof. split; vm_compute; reflexivity. Qed.
